@@ -16,7 +16,7 @@ variable {K : Type} [Num K]
 def MAXN : Nat := 4294967295
 
 /-- `Real::MAX` (`f64::MAX = 2^1024 - 2^971`) -/
-def big : K := Num.ofRat (((2 : Int) ^ 1024 - (2 : Int) ^ 971 : Int) : Rat)
+@[irreducible] def big : K := Num.ofRat (((2 : Int) ^ 1024 - (2 : Int) ^ 971 : Int) : Rat)
 
 /-- `Aabb::new_invalid()` : mins = +MAX, maxs = -MAX -/
 def invalidBox : Aabb3 K := ⟨⟨big, big, big⟩, ⟨-big, -big, -big⟩⟩
@@ -122,6 +122,20 @@ def firstFree (ch : Vector Nat 4) : Option Nat :=
   if ch[0] = MAXN then some 0 else if ch[1] = MAXN then some 1
   else if ch[2] = MAXN then some 2 else if ch[3] = MAXN then some 3 else none
 
+/-- "Missing node, create it": push an empty leaf with parent `(0, ii)` and store its index in the root's lane `ii` -/
+def addRootLeaf (q : Q K) (root : Node K) (ii : Nat) : Q K :=
+  { q with nodes := (q.nodes.push (emptyLeaf 0 ii)).setIfInBounds 0
+              { root with children := root.children.setIfInBounds ii q.nodes.size } }
+
+/-- "Insert into this node if there is room": lane `kk` of leaf `child` (= `cn`) takes proxy `id` -/
+def attachProxy (q : Q K) (id child kk : Nat) (cn : Node K) : Q K :=
+  let cn1 : Node K := { cn with children := cn.children.setIfInBounds kk id, dirty := true }
+  let dl := if cn.dirty then q.dirtyNodes else child :: q.dirtyNodes
+  let ps := match q.proxies[id]? with
+    | some pr => q.proxies.setIfInBounds id { pr with node := child, lane := kk }
+    | none => q.proxies
+  { q with nodes := q.nodes.setIfInBounds child cn1, dirtyNodes := dl, proxies := ps }
+
 /-- the `for ii in 0..SIMD_WIDTH` loop over the root's lanes (second path).
 `none` = index panic; `(q, true)` = the proxy was attached and the function returned. -/
 def attachLoop (id : Nat) : List Nat → Q K → Option (Q K × Bool)
@@ -133,12 +147,7 @@ def attachLoop (id : Nat) : List Nat → Q K → Option (Q K × Bool)
       match root.children[ii]? with
       | none => none
       | some child0 =>
-        -- missing node: create it
-        let q1 : Q K :=
-          if child0 = MAXN then
-            { q with nodes := (q.nodes.push (emptyLeaf 0 ii)).setIfInBounds 0
-                        { root with children := root.children.setIfInBounds ii q.nodes.size } }
-          else q
+        let q1 : Q K := if child0 = MAXN then addRootLeaf q root ii else q
         let child := if child0 = MAXN then q.nodes.size else child0
         match q1.nodes[child]? with
         | none => none
@@ -146,13 +155,7 @@ def attachLoop (id : Nat) : List Nat → Q K → Option (Q K × Bool)
           if !cn.leaf then attachLoop id rest q1
           else match firstFree cn.children with
             | none => attachLoop id rest q1
-            | some kk =>
-              let cn1 : Node K := { cn with children := cn.children.setIfInBounds kk id, dirty := true }
-              let dl := if cn.dirty then q1.dirtyNodes else child :: q1.dirtyNodes
-              let ps := match q1.proxies[id]? with
-                | some pr => q1.proxies.setIfInBounds id { pr with node := child, lane := kk }
-                | none => q1.proxies
-              some ({ q1 with nodes := q1.nodes.setIfInBounds child cn1, dirtyNodes := dl, proxies := ps }, true)
+            | some kk => some (attachProxy q1 id child kk cn, true)
 
 /-- `if let Some(child_node) = self.nodes.get_mut(child_id) { child_node.parent.index = parent_index }` -/
 def reparent (ns : Array (Node K)) (c L : Nat) : Array (Node K) :=
@@ -160,35 +163,51 @@ def reparent (ns : Array (Node K)) (c L : Nat) : Array (Node K) :=
   | some cn => ns.setIfInBounds c { cn with parent := L }
   | none => ns
 
-/-- third path: the four root lanes are full — move the old root to a new slot and grow a new root.
-`fixRoot = false` is the pinned-tree behaviour; `fixRoot = true` additionally schedules the (now stale) root
-boxes for refit (see `fixes/C08-root-split-refit.diff`). -/
-def splitRoot (fixRoot : Bool) (q : Q K) (id : Nat) : Option (Q K) :=
+/-- the node array after the root split: children of the old root re-parented to the new slot `L = nodes.len()`,
+the old root copied to `L` with parent `(0,0)`, a new leaf `L+1` with parent `(0,1)` holding `id`,
+and the root's children replaced by `[L, L+1, MAX, MAX]` -/
+def splitNodes (q : Q K) (root : Node K) (id : Nat) : Array (Node K) :=
+  let L := q.nodes.size
+  let oldRoot : Node K := { root with parent := 0, plane := 0 }
+  let ns1 := reparent (reparent (reparent (reparent q.nodes root.children[0] L) root.children[1] L)
+                root.children[2] L) root.children[3] L
+  let newLeaf : Node K := { (emptyLeaf 0 1 : Node K) with children := #v[id, MAXN, MAXN, MAXN], dirty := true }
+  let ns2 := (ns1.push oldRoot).push newLeaf
+  match ns2[0]? with
+  | some r0 => ns2.setIfInBounds 0 { r0 with children := #v[L, L + 1, MAXN, MAXN] }
+  | none => ns2
+
+/-- third path as on the pinned tree: the four root lanes are full — move the old root to a new slot and grow a
+new root.  Only the new leaf is queued for refit. -/
+def splitRootPinned (q : Q K) (id : Nat) : Option (Q K) :=
   match q.nodes[0]? with
   | none => none
   | some root =>
     let L := q.nodes.size
-    let oldRoot : Node K := { root with parent := 0, plane := 0 }
-    let ns1 := reparent (reparent (reparent (reparent q.nodes root.children[0] L) root.children[1] L)
-                  root.children[2] L) root.children[3] L
-    let newLeaf : Node K := { (emptyLeaf 0 1 : Node K) with children := #v[id, MAXN, MAXN, MAXN], dirty := true }
-    let ns2 := (ns1.push oldRoot).push newLeaf
     let ps := match q.proxies[id]? with
       | some pr => q.proxies.setIfInBounds id { pr with node := L + 1, lane := 0 }
       | none => q.proxies
-    match ns2[0]? with
-    | none => none
-    | some r0 =>
-      let r1 : Node K := { r0 with children := #v[L, L + 1, MAXN, MAXN] }
-      if fixRoot then
-        if root.dirty then
-          -- index 0 is already queued and stays the root; the moved copy needs its own entry
-          some { q with nodes := ns2.setIfInBounds 0 r1, dirtyNodes := L :: (L + 1) :: q.dirtyNodes, proxies := ps }
-        else
-          some { q with nodes := ns2.setIfInBounds 0 { r1 with dirty := true },
-                        dirtyNodes := 0 :: (L + 1) :: q.dirtyNodes, proxies := ps }
-      else
-        some { q with nodes := ns2.setIfInBounds 0 r1, dirtyNodes := (L + 1) :: q.dirtyNodes, proxies := ps }
+    some { q with nodes := splitNodes q root id, dirtyNodes := (L + 1) :: q.dirtyNodes, proxies := ps }
+
+/-- the correction (fixes/C08-root-split-refit.diff): after the split the root's lane boxes are stale (lane 0 now
+holds the whole old root), so the root must be queued for refit; if the old root was already queued (index 0 stays
+in `dirty_nodes`), its moved copy `L` carries the DIRTY flag and needs its own entry. -/
+def scheduleRoot (wasDirty : Bool) (L : Nat) (q1 : Q K) : Q K :=
+  if wasDirty then { q1 with dirtyNodes := L :: q1.dirtyNodes }
+  else match q1.nodes[0]? with
+    | some r => { q1 with nodes := q1.nodes.setIfInBounds 0 { r with dirty := true }, dirtyNodes := 0 :: q1.dirtyNodes }
+    | none => q1
+
+/-- third path. `fixRoot = false` is the pinned-tree behaviour; `fixRoot = true` adds `scheduleRoot`. -/
+def splitRoot (fixRoot : Bool) (q : Q K) (id : Nat) : Option (Q K) :=
+  match q.nodes[0]? with
+  | none => none
+  | some root =>
+    (splitRootPinned q id).map fun q1 => if fixRoot then scheduleRoot root.dirty q.nodes.size q1 else q1
+
+/-- `node.set_dirty(true); self.dirty_nodes.push(n)` -/
+def markDirty (q : Q K) (n : Nat) (nd : Node K) : Q K :=
+  { q with nodes := q.nodes.setIfInBounds n { nd with dirty := true }, dirtyNodes := n :: q.dirtyNodes }
 
 /-- `Qbvh::pre_update_or_insert(data)`; `none` = index panic. -/
 def preUpdateOrInsert (fixRoot : Bool) (q : Q K) (id : Nat) : Option (Q K) :=
@@ -205,9 +224,7 @@ def preUpdateOrInsert (fixRoot : Bool) (q : Q K) (id : Nat) : Option (Q K) :=
       match q1.nodes[pr.node]? with
       | none => none
       | some nd =>
-        if nd.dirty then some q1
-        else some { q1 with nodes := q1.nodes.setIfInBounds pr.node { nd with dirty := true },
-                            dirtyNodes := pr.node :: q1.dirtyNodes }
+        if nd.dirty then some q1 else some (markDirty q1 pr.node nd)
 
 /-! ## `Qbvh::refit` -/
 
@@ -377,9 +394,12 @@ def checkFree : List Nat → Bool
   | [] => true
   | x :: xs => !(xs.contains x) && checkFree xs
 
+/-- I5': free-list entries are node indices -/
+def checkFreeBound (q : Q K) : Bool := q.freeList.all fun n => decide (n < q.nodes.size)
+
 def checkInv (q : Q K) : Bool :=
   checkRoot q && checkChildren q && checkParents q && checkLeafProxy q && checkProxyLeaf q && checkDepth q &&
-  checkFree q.freeList
+  checkFree q.freeList && checkFreeBound q && decide (q.nodes.size ≤ MAXN) && decide (q.proxies.size ≤ MAXN)
 
 /-- D: a node flagged DIRTY is queued in `dirty_nodes` -/
 def checkDirty (q : Q K) : Bool :=
